@@ -785,6 +785,8 @@ class NpProxy:
         return getattr(_real_np, name)(x, **kw)
 
     def abs(self, x):
+        if getattr(x, "_rho", None) is not None and hasattr(x, "_abs"):
+            return x._abs()  # eigenvalue array: abs().max() is the spectral radius by contract
         return self._unary("absolute", x)
 
     absolute = abs
